@@ -62,9 +62,20 @@ def check(col, prog, tier, profile, fixture=None):
     idxp = ("param", 2, I.names.get(2))
     res_l, sz_l = gi.local_by_name("result"), None
     backs = [s for l in I.backedge_states.values() for s in l]
-    if not backs or len(I.loops) != 1:
+    has_range = any(isinstance(v, tuple) and v and v[0] == "rangeiter" for st in backs + I.final_states for v in st.env.values())
+    if not has_range:
+        # the dimensions are walked with idx.iter().zip(self.dims.iter()) [.rev()], in a loop or a fold
+        _zip_forms(col, crate, I, gi, selfp, idxp, DIMS, sfx)
+    elif not backs or len(I.loops) != 1:
         col.violation("Y1" + sfx, "%s|loop" % fk(gi), gi.loc(), "get_index is expected to be one loop over the dimensions")
         return
+    if has_range:
+        _range_form(col, I, gi, selfp, idxp, DIMS, sfx, backs)
+    _rest(col, crate, adt, gi, DIMS, DATA, sfx)
+
+
+def _range_form(col, I, gi, selfp, idxp, DIMS, sfx, backs):
+    fk = util.fkey
     head = list(I.loops)[0]
     # the range
     rng = None
@@ -144,6 +155,10 @@ def check(col, prog, tier, profile, fixture=None):
         else:
             col.violation("Y5" + sfx, "%s|initial" % fk(gi), gi.loc(), "accumulator/stride are not initialised to (0, 1)")
 
+
+
+def _rest(col, crate, adt, gi, DIMS, DATA, sfx):
+    fk = util.fkey
     # ---------------- Y2
     nidx = 0
     for b in crate.bodies:
@@ -182,7 +197,7 @@ def check(col, prog, tier, profile, fixture=None):
         sites = [(bb, idx) for bb, idx, s in b.statements() if s["k"] == "assign" and s["rv"]["k"] == "agg" and s["rv"]["ak"]["k"] == "adt" and s["rv"]["ak"]["def"] == adt["key"]]
         if not sites:
             continue
-        Ib = util.analyse(b)
+        Ib = util.analyser(util.private_helpers(crate, "Tensor", exclude=[gi]) + [f_ for f_ in crate.bodies if not f_.is_closure and f_.kind == "Fn" and f_.container is None and f_.vis != "pub" and not util.self_recursive(f_)])(b)
         for st in Ib.final_states:
             ret = util.ret_term(st)
             if not (ret[0] == "agg" and ret[1][0] == "adt" and ret[1][1].endswith("Tensor")):
@@ -194,6 +209,23 @@ def check(col, prog, tier, profile, fixture=None):
                 t = f[1]
                 if t[0] == "call" and str(t[1]).endswith("::contains") and f[0] == "eq" and f[2] == 0:
                     if ("ref", ("constval", mk_int(0))) in t[2] and any(_reads(a, dims, Ib, st) for a in t[2]):
+                        zero_ok = True
+                # dims.iter().all(|&d| d != 0)
+                if t[0] == "call" and str(t[1]).endswith("::all") and ((f[0] == "eq") == bool(f[2])):
+                    over_dims = any(x == dims or (x[0] == "ref" and _reads(x, dims, Ib, st)) for x in subterms(t))
+                    for e_ in st.event_list():
+                        if e_.kind == "call" and e_.res == t:
+                            for av in (e_.extra.get("argvals") or []):
+                                if isinstance(av, tuple) and any(x == dims or (x[0] == "ref" and x[1] == ("constval", dims)) for x in [av] + list(subterms(av))):
+                                    over_dims = True
+                    clo = [x for x in t[2] if isinstance(x, tuple) and x and x[0] == "agg" and isinstance(x[1], tuple) and x[1][0] == "closure"]
+                    nz = False
+                    if clo:
+                        cb = crate.by_key.get(clo[0][1][1])
+                        if cb is not None:
+                            Ic = util.analyse(cb)
+                            nz = bool(Ic.final_states) and all(util.ret_term(fs)[0] == "bin" and util.ret_term(fs)[1] == "Ne" and util.ret_term(fs)[3] == mk_int(0) for fs in Ic.final_states)
+                    if over_dims and nz:
                         zero_ok = True
                 if t[0] == "bin" and t[1] == "Eq" and f[0] == "eq" and f[2] == 1:
                     sides = (t[2], t[3])
@@ -246,12 +278,121 @@ def check(col, prog, tier, profile, fixture=None):
             continue
         names_ = [t["fn"].get("name") for bb, t in b.calls()]
         if "rposition" in names_ or "position" in names_:
-            ok = "rposition" in names_ and "position" not in names_ and "fill" in names_
+            zeroing = "fill" in names_
+            if not zeroing:
+                # an explicit loop writing 0 behind the incremented position
+                Iw = util.analyse(b)
+                zeroing = any(e.kind == "store" and e.val == mk_int(0) for l in Iw.backedge_states.values() for st_ in l for e in st_.event_list())
+            ok = "rposition" in names_ and "position" not in names_ and zeroing
             key = "%s|steps-last-index-fastest" % fk(b)
             if ok:
                 col.ok("Y5" + sfx, b.loc(), key, "next index = rposition(not saturated) + 1, zero-fill behind", nontrivial=False)
             else:
                 col.violation("Y5" + sfx, key, b.loc(), "%s does not advance the multi-index last-dimension-fastest (rposition + fill(0))" % b.path)
+
+
+def _is_sum(t, a, b):
+    return isinstance(t, tuple) and t and t[0] == "bin" and t[1] == "Add" and ((t[2] == a and t[3] == b) or (t[2] == b and t[3] == a))
+
+
+def _prod_of(t):
+    return (t[2], t[3]) if isinstance(t, tuple) and t and t[0] == "bin" and t[1] == "Mul" else None
+
+
+def _zip_forms(col, crate, I, gi, selfp, idxp, DIMS, sfx):
+    """get_index written over idx.iter().zip(self.dims.iter()) [.rev()]: a for loop, or a fold with a closure"""
+    fk = util.fkey
+
+    def classify(src):
+        # iter(&X) / into_iter(&X)
+        if not (isinstance(src, tuple) and src and src[0] == "call" and str(src[1]).split("::")[-1] in ("iter", "into_iter")):
+            return None
+        a = src[2][0]
+        if a[0] == "ref":
+            pl = a[1]
+            if pl == ("field", selfp, DIMS):
+                return "dims"
+            if pl == ("constval", idxp) or pl == ("local", 2):
+                return "idx"
+        return None
+
+    chain = None
+    for st in I.all_end_states():
+        for e in st.event_list():
+            if e.kind == "call" and e.extra.get("name") == "zip":
+                ka, kb = classify(e.args[0]), classify(e.args[1])
+                if {ka, kb} == {"idx", "dims"}:
+                    rev = any(x.kind == "call" and x.extra.get("name") == "rev" and any(y == e.res for y in [x.args[0]] + list(subterms(x.args[0]))) for x in st.event_list())
+                    chain = (e, ka, kb, rev)
+    if chain is None:
+        col.violation("Y1" + sfx, "%s|loop" % fk(gi), gi.loc(), "get_index neither ranges over 0..D nor zips the index with the extents")
+        return
+    zev, ka, kb, rev = chain
+    col.ok("Y1" + sfx, gi.loc(), "%s|range-0..D" % fk(gi), "idx and dims (both of length D) are walked in lock step%s" % (", last dimension first" if rev else ""))
+    pos = {ka: 0, kb: 1}
+    paths = []   # (Interp, facts, old_acc, new_acc, idx_val, dims_val, stride_old, stride_new, init_ok)
+    backs = [s_ for l in I.backedge_states.values() for s_ in l]
+    if backs and len(I.loops) == 1:
+        head = list(I.loops)[0]
+        acc = None
+        for st in I.final_states:
+            r = util.ret_term(st)
+            if r[0] == "phi" and r[1] == head:
+                acc = r[2]
+        if acc is None:
+            col.violation("Y5" + sfx, "%s|accumulator" % fk(gi), gi.loc(), "get_index does not return the loop's accumulator")
+            return
+        ent = (I.loop_entry.get(head) or [{}])[0]
+        for st in backs:
+            nx = [e for e in st.event_list() if e.kind == "call" and e.extra.get("name") == "next"]
+            if not nx:
+                continue
+            P = ("proj", 0, ("down", nx[-1].res, 1))
+            comp = lambda k: ("proj", pos[k], P)
+            val = lambda k: [t for f in st.facts for t in subterms(f[1]) if t[0] == "load" and t[2] == ("deref", comp(k))] + [t for v in st.env.values() if isinstance(v, tuple) for t in [v] + list(subterms(v)) if t[0] == "load" and t[2] == ("deref", comp(k))]
+            iv, dv = val("idx"), val("dims")
+            if not iv or not dv:
+                col.violation("Y5" + sfx, "%s|iteration" % fk(gi), gi.loc(), "the loop body does not read the zipped (index, extent) pair")
+                return
+            strides = [l for l, v in st.env.items() if l != acc and isinstance(v, tuple) and _prod_of(v) and ("phi", head, l) in _prod_of(v)]
+            sl = strides[0] if strides else None
+            paths.append((I, st.facts, ("phi", head, acc), st.env.get(acc), iv[0], dv[0], ("phi", head, sl) if sl is not None else None, st.env.get(sl) if sl is not None else None, ent.get(acc) == mk_int(0) and (sl is None or ent.get(sl) == mk_int(1))))
+    else:
+        # fold(init, closure)
+        for st in I.final_states:
+            r = util.ret_term(st)
+            if r[0] == "call" and str(r[1]).endswith("::fold") and len(r[2]) >= 3:
+                init, clo = r[2][1], r[2][2]
+                cb = crate.by_key.get(clo[1][1]) if clo[0] == "agg" and isinstance(clo[1], tuple) and clo[1][0] == "closure" else None
+                if cb is None:
+                    continue
+                Ic = util.analyse(cb)
+                accp, item = ("param", 2, Ic.names.get(2)), ("param", 3, Ic.names.get(3))
+                for fs in Ic.final_states:
+                    ld = lambda k: ("load", ("m0",), ("deref", ("proj", pos[k], item)))
+                    paths.append((Ic, fs.facts, accp, util.ret_term(fs), ld("idx"), ld("dims"), None, None, init == mk_int(0)))
+    if not paths:
+        col.violation("Y5" + sfx, "%s|iteration" % fk(gi), gi.loc(), "cannot find the per-dimension update of get_index")
+        return
+    for (Ix, facts, old, new, iv, dv, s_old, s_new, init_ok) in paths:
+        z = zones.zone_of(facts, Ix.tys)
+        if z.entails("Lt", iv, dv):
+            col.ok("Y1" + sfx, gi.loc(), "%s|bound-fact" % fk(gi), "every continuing iteration entails %s < %s" % (tstr(iv), tstr(dv)))
+        else:
+            col.violation("Y1" + sfx, "%s|bound-fact" % fk(gi), gi.loc(), "an iteration of the flattening loop uses an index component without the fact index < extent for the same dimension: an index out of range in one dimension aliases another element instead of panicking", {"facts": [(f[0], tstr(f[1]), f[2]) for f in facts]})
+        key = "%s|iteration" % fk(gi)
+        horner = _is_sum(new, ("bin", "Mul", old, dv), iv) or _is_sum(new, ("bin", "Mul", dv, old), iv)
+        strided = s_old is not None and (_is_sum(new, old, ("bin", "Mul", s_old, iv)) or _is_sum(new, old, ("bin", "Mul", iv, s_old))) and s_new in (("bin", "Mul", s_old, dv), ("bin", "Mul", dv, s_old))
+        if horner and not rev:
+            col.ok("Y5" + sfx, gi.loc(), key, "offset = offset * extent + i, first dimension first (Horner form of the row-major offset)")
+        elif strided and rev:
+            col.ok("Y5" + sfx, gi.loc(), key, "result += stride*i; stride *= extent; last dimension first")
+        else:
+            col.violation("Y5" + sfx, key, gi.loc(), "strides are not row-major: %s" % ("the Horner form must run first dimension first / the stride form last dimension first (this is column-major)" if (horner or strided) else "update is %s" % tstr(new)))
+        if init_ok:
+            col.ok("Y5" + sfx, gi.loc(), "%s|initial" % fk(gi), "accumulator starts at 0 (stride at 1)")
+        else:
+            col.violation("Y5" + sfx, "%s|initial" % fk(gi), gi.loc(), "accumulator/stride are not initialised to (0, 1)")
 
 
 def _is_tensor_place(I, pl):
